@@ -35,6 +35,7 @@ class Facts(Walker):
         self.seed_cells = dict(seed_cells or {})
         self._depth = _depth
         self._inlined = {}
+        self._inlined_tuple = {}
         self.seed = dict(seed or {})          # parameter name -> caller's value number (interprocedural continuation)
         self.seed_facts = frozenset(seed_facts or ())
         self.assume = dict(assume or {})      # parameter name -> assumed truth value (configuration-driven arms)
@@ -62,6 +63,13 @@ class Facts(Walker):
                     types[nm] = r
         for b in bad:
             types.pop(b, None)
+        # parameters annotated with a repository class (helpers that receive a Quaternion)
+        a = self.func.node.args
+        for p in a.posonlyargs + a.args + a.kwonlyargs:
+            if p.annotation is not None and p.arg not in types and p.arg not in bad:
+                r = self._resolve(p.annotation)
+                if isinstance(r, Class):
+                    types[p.arg] = r
         return types
 
     def _resolve(self, node):
@@ -415,6 +423,16 @@ class Facts(Walker):
         self.divisions.extend(sub.divisions)
         vns = {r["vn"] for r in sub.ret_info if not r.get("none")}
         self._inlined[id(node)] = vns.pop() if len(vns) == 1 else None
+        rets = [(stmt, rst) for stmt, rst in sub.returns if rst is not None and stmt is not None and getattr(stmt, "value", None) is not None]
+        if len(rets) == 1 and isinstance(rets[0][0].value, ast.Tuple):
+            stmt, rst = rets[0]
+            elems = []
+            for e in stmt.value.elts:
+                try:
+                    elems.append((sub.vn(e, rst), bool(sub.is_unit(e, rst)), sub.local_types.get(e.id) if isinstance(e, ast.Name) else None))
+                except Exception:
+                    elems.append((None, False, None))
+            self._inlined_tuple[id(node)] = elems
 
     def s_Assign(self, s, st):
         self.expr(s.value, st)
@@ -452,6 +470,18 @@ class Facts(Walker):
             if isinstance(value_node, (ast.Tuple, ast.List)) and len(value_node.elts) == len(t.elts):
                 for e, v in zip(t.elts, value_node.elts):
                     self.bind(e, v, self.vn(v, st), st, stmt)
+            elif isinstance(value_node, ast.Call) and id(value_node) in self._inlined_tuple and len(self._inlined_tuple[id(value_node)]) == len(t.elts):
+                for e, (evn, eunit, etype) in zip(t.elts, self._inlined_tuple[id(value_node)]):
+                    if isinstance(e, ast.Name) and evn is not None:
+                        st.pop("b:" + e.id, None)
+                        st.pop("stale:" + e.id, None)
+                        st["v:" + e.id] = evn
+                        if eunit:
+                            self.add(st, "UNIT", evn)
+                        if etype is not None and e.id not in self.local_types:
+                            self.local_types[e.id] = etype
+                    else:
+                        self.bind(e, None, self.fresh("elt", stmt), st, stmt)
             else:
                 eig = isinstance(value_node, ast.Call) and (self.np_name(value_node.func) or "").split(".")[-1] in ("eig", "eigh")
                 for i, e in enumerate(t.elts):
@@ -679,7 +709,11 @@ class Facts(Walker):
         if key in self.unit_summaries:
             return bool(self.unit_summaries[key])
         self.unit_summaries[key] = False
-        sub = Facts(callee, self.prog, callbacks={}, unit_summaries=self.unit_summaries, seed=seed, seed_facts=st["F"] | frozenset(extra))
+        sub = Facts(callee, self.prog, callbacks={}, unit_summaries=self.unit_summaries, seed=seed, seed_facts=st["F"] | frozenset(extra), inline_private=True,
+                    _depth=self._depth + 1)
+        for p, a in pairs:        # an argument that is a typed local (a Quaternion object) stays one inside
+            if isinstance(a, ast.Name) and a.id in self.local_types and p not in sub.local_types:
+                sub.local_types[p] = self.local_types[a.id]
         sub.analyse()
         ok = bool(sub.ret_info) and all(r["unit"] or r["none"] for r in sub.ret_info)
         self.unit_summaries[key] = ok
